@@ -147,6 +147,19 @@ func c20Run(c *h.Ctx) {
 		if c.Failed() {
 			return
 		}
+		// what an actor can read back through its adapter is its own (for observers: filtered) copy as well
+		for i, a := range actors {
+			ags := a.GetTable().GetGameState()
+			if ags == nil {
+				continue
+			}
+			if ags == t.State.GameState {
+				fail("C20/actor-was-given-the-engines-table/through-its-adapter", fmt.Sprintf("the adapter of %s answers GetGameState() with the engine's own hand state object (status %s)", names[i], t.State.Status), witness())
+				return
+			}
+			// (what the accessor shows at a given instant is not judged: the adapter stores a delivery before the runner
+			// has filtered it, so a reader racing with a delivery can see either; only object identity is checked)
+		}
 		// the engine's own table is untouched
 		if why := scribbled(t); why != "" {
 			fail("C20/actor-changed-the-engines-table", fmt.Sprintf("after the fan-out of snapshot %d the engine's own table shows %s", n, why), witness())
